@@ -54,6 +54,11 @@ def cases(tier):
             for order in (("A", "B", "C"), ("C", "B", "A"), ("B", "C", "A")):
                 cs.append(F.join3(c1, c2, end=e3, order=order))
                 cs.append(F.fan3(c1, c2, end=e3, order=order))
+    # components that start at different times (three components)
+    for starts in ((1, 0, 0), (0, 1, 0), (0, 0, 2), (2, 1, 0)):
+        for c1, c2 in (([], []), ([F.TOK["L"]], [F.TOK["F1"]]), ([F.TOK["F1"]], [F.TOK["L"]]), ([F.TOK["A"]], [])):
+            cs.append(F.line3(c1, c2, end=e3, starts=starts))
+            cs.append(F.line3(c1, c2, end=e3, starts=starts, order=("C", "B", "A")))
     for c1 in F.chains(["L", "F1", "S", "P1"], 1):
         for c2 in F.chains(["F1", "S"], 1, src_pull_based=True):
             for order in F.orders(["A", "P", "B"], all_orders=not q):
